@@ -178,6 +178,9 @@ def _check_sep(cx, what, r, p, out_unit, uv=None):
             if cx.check("%s: clipping the cosine to [-1,1] is a no-op (Cauchy-Schwarz)" % what,
                         sym_and(SReal(raw) >= -1, SReal(raw) <= 1), hyps=hy):
                 cx.axioms.append(z3.And(raw >= -1, raw <= 1))
+                cx.check("%s: cos(result) = unit-vector dot product (the great-circle angle)" % what, cr == D,
+                         hyps=[raw == D.t, raw >= -1, raw <= 1])
+                return
     if uv is not None and is_sym(cr):
         # cross-product branch: cos(result) = -sqrt(1 - |a x b|^2) = -|a.b|, and a.b < 0 there
         # because |a-b|^2 = 2 - 2 a.b >= 3.99.  Proved in steps: the two polynomial identities
@@ -250,6 +253,11 @@ def harness(cx, cfg):
                 else:
                     # with eq2xyz behind its contract the invariance is eq2xyz's own: checked there
                     cx.check("%s: result in range after the shift" % base, sym_and(b >= 0, b <= 180))
+            elif isinstance(a, trig.SAng) or isinstance(b, trig.SAng):
+                # one call took the exact-zero shortcut (identical inputs), the other computed it
+                ang, num = (a, b) if isinstance(a, trig.SAng) else (b, a)
+                cx.check_eq("%s: unchanged when 360 degrees is added to a longitude (cosine)" % base,
+                            trig.cos(trig.SAng(ang.form, ang.const, 0)), math.cos(float(num)))
             else:
                 cx.check("%s: unchanged when 360 degrees is added to a longitude" % base, (not is_sym(a)) and (not is_sym(b)) and a == b)
             return
